@@ -1,6 +1,7 @@
 package props
 
 import (
+	"bytes"
 	"crypto/sha256"
 	"encoding/binary"
 	"fmt"
@@ -91,6 +92,32 @@ type histGen struct {
 	// plainAmountsForAdmins avoids balance-relative amounts for genesis admins (their balance depends on fee income,
 	// which a differential run without the failed transactions does not have)
 	plainAmountsForAdmins bool
+	// replays: how many times a generated transaction is executed in this process (replicas, crash images, re-execution
+	// after rollback); see xvmAllowed
+	replays int
+}
+
+// xvmAllowed is the budget for WASM invocations in one process. Known finding KF-C08-wasm-mappings-leak: every XVM
+// invocation leaves about 28 memory mappings behind that are never released; at vm.max_map_count (65530 by default,
+// about 2300 invocations) the next one aborts the process. A check process stays below that limit: once the mappings
+// of the process, plus what the replays of one more invocation would add, pass 45000, no further WASM transaction is
+// generated in it (counted).
+func xvmAllowed(replays int) bool {
+	if !sim.KFOpen("KF-C08-wasm-mappings-leak") {
+		return true
+	}
+	if replays < 1 {
+		replays = 1
+	}
+	b, err := os.ReadFile("/proc/self/maps")
+	if err != nil {
+		return true
+	}
+	if bytes.Count(b, []byte{'\n'})+replays*30 > 45000 {
+		sim.StatsFor("C08").KnownFinding("KF-C08-wasm-mappings-leak", "no further WASM transactions in this process")
+		return false
+	}
+	return true
 }
 
 var (
@@ -111,7 +138,7 @@ func loadWasm() [][]byte {
 }
 
 func newHistGen(t *rapid.T, w *sim.World) *histGen {
-	g := &histGen{t: t, w: w, kinds: map[string]int{}}
+	g := &histGen{t: t, w: w, kinds: map[string]int{}, replays: 4}
 	g.pairs = stdPairs(w)
 	g.reqIdx = make([]uint64, len(g.pairs))
 	g.rcpIdx = make([]uint64, len(g.pairs))
@@ -166,6 +193,9 @@ func (g *histGen) amount(from *sim.Key) string {
 func (g *histGen) genTx() *txSpec {
 	t, w := g.t, g.w
 	kind := rapid.SampledFrom(g.weights).Draw(t, "kind")
+	if kind == "xvm" && !xvmAllowed(g.replays) {
+		kind = "store"
+	}
 	s := &txSpec{kind: kind}
 	defer func() { g.kinds[s.kind]++ }()
 	switch kind {
